@@ -12,7 +12,7 @@
    refinement (`_chiral_morgan`) is not covered by theorems: search in harness/checks/C01.py. *)
 From Coq Require Import ZArith List Bool Permutation Sorting.Sorted String.
 From Model Require Import PyBase PyHash Graph Morgan Stereo StereoRegistry Writer ChiralMorgan.
-From Proofs Require Import MorganProofs WriterInvProofs WriterStereoExt BfsExt BfsExt2 TraverseOrderExt InsertionOrderExt InsertionOrderExt2 ChiralMorganProofs StereoProofs StereoOrderExt StereoOrderExt2 RegistryRemapExt.
+From Proofs Require Import MorganProofs WriterInvProofs WriterStereoExt BfsExt BfsExt2 TraverseOrderExt InsertionOrderExt InsertionOrderExt2 ChiralMorganProofs StereoProofs StereoOrderExt StereoOrderExt2 RegistryRemapExt EnvLaws CtMapOrderExt AllStereoExt SameStereo EqHashExt.
 Import ListNotations.
 Open Scope Z_scope.
 
@@ -709,3 +709,85 @@ Theorem C01_smiles_invariant_discrete_remap_registries :
              smiles_text (ren_mol s g) w' tb' o (stabs_of_reg r') = map_order s (smiles_text g w tb o (stabs_of_reg r)).
 Proof. exact smiles_invariant_discrete_remap_registries. Qed.
 Print Assumptions C01_smiles_invariant_discrete_remap_registries.
+
+(* ====================================================================================================================== *)
+(* ALL stereo marks under ANY renumbering and ANY insertion order *)
+(* the laws of `_translate_cis_trans_sign` / `_translate_allene_sign` for EVERY pair of arguments: listing the two substituents of an
+   end in the other order flips the sign, exchanging the two ends exchanges the two arguments (non-hydrogen arguments) *)
+Theorem C01_translate_env_swap_first_end : forall (isH : Z -> bool) (e : Z * Z * option Z * option Z) (nn nm : Z) (sg : bool),
+  env_ok isH e -> canA e = true -> translate_env isH (swapA e) nn nm (negb sg) = translate_env isH e nn nm sg.
+Proof. exact swapA_law. Qed.
+Print Assumptions C01_translate_env_swap_first_end.
+
+Theorem C01_translate_env_swap_second_end : forall (isH : Z -> bool) (e : Z * Z * option Z * option Z) (nn nm : Z) (sg : bool),
+  env_ok isH e -> canB e = true -> translate_env isH (swapB e) nn nm (negb sg) = translate_env isH e nn nm sg.
+Proof. exact swapB_law. Qed.
+Print Assumptions C01_translate_env_swap_second_end.
+
+Theorem C01_translate_env_exchange_ends : forall (isH : Z -> bool) (e : Z * Z * option Z * option Z) (nn nm : Z) (sg : bool),
+  env_ok isH e -> isH nn = false -> isH nm = false -> translate_env isH (exch_env e) nn nm sg = translate_env isH e nm nn sg.
+Proof. exact exch_law. Qed.
+Print Assumptions C01_translate_env_exchange_ends.
+
+(* `__ct_map` for a re-inserted molecule: centre / terminal pairs in either orientation, environments in any of their listings,
+   signs re-expressed: the map of the cis/trans marks is the renamed map *)
+Theorem C01_ct_map_insertion_order : forall (g g' : mol) (s : Z -> Z) (tabs tabs' : stabs) (flipc : Z -> Z -> bool),
+  (forall x y, s x = s y -> x = y) -> s 0 = 0 -> (forall x, is_H g x = false) -> (forall x, is_H g' x = false) ->
+  same_ct_stereo g g' s tabs tabs' flipc ->
+  forall adj : adjacency, ct_map g' tabs' (ren_vis s adj) = ren_pmres s (ct_map g tabs adj).
+Proof. exact ct_map_same. Qed.
+Print Assumptions C01_ct_map_insertion_order.
+
+(* DESIGN appendix A smiles_invariant_discrete, in full: g' is g renumbered by s AND re-inserted in any order (atoms, adjacency rows,
+   neighbours), carrying the same stereo labels: same_atom_stereo / same_ct_stereo say that every registry entry of g' is the renamed
+   entry of g up to the re-listings another insertion order causes (neighbours of a tetrahedron permuted, substituents of an end
+   swapped, ends exchanged, centre / terminal pairs in the other orientation) with the stored signs re-expressed by parity; the
+   weights are injective; any tie-break priorities; any number of components.  The text with ALL stereo marks (tetrahedral, allene,
+   cis/trans), closure numbers and CXSMILES suffix is identical, the written order is mapped by s.
+   Restriction kept: the molecule has no explicit hydrogen ATOMS (implicit hydrogens are fine) and s 0 = 0. *)
+Theorem C01_smiles_invariant_discrete :
+  forall (g g' : mol) (s w w' tb tb' : Z -> Z) (o : opts) (tabs tabs' : stabs) (flipc : Z -> Z -> bool),
+  wf_mol (strip g) = true -> wf_mol (strip g') = true -> (forall x y, s x = s y -> x = y) -> s 0 = 0 ->
+  mol_perm (ren_mol s (strip g)) (strip g') -> inj_on (ids g) w -> (forall n, In n (ids g) -> w' (s n) = w n) -> o_mapping o = false ->
+  (forall x, is_H g x = false) -> (forall x, is_H g' x = false) ->
+  same_atom_stereo g g' s tabs tabs' -> same_ct_stereo g g' s tabs tabs' flipc ->
+  smiles_text g' w' tb' o tabs' = map_order s (smiles_text g w tb o tabs).
+Proof. exact smiles_invariant_discrete. Qed.
+Print Assumptions C01_smiles_invariant_discrete.
+
+(* non-vacuity: F/C=C\Cl renumbered n -> 2 n and inserted from the other end (the double-bond system registered in the other
+   orientation), other tie-breaks: every hypothesis holds, both strings are F/C=C\Cl *)
+Theorem C01_smiles_invariant_discrete_example :
+  wf_mol (strip exd_g) = true /\ wf_mol (strip exd_g') = true /\ (forall x y, exd_s x = exd_s y -> x = y) /\ exd_s 0 = 0 /\
+  mol_perm (ren_mol exd_s (strip exd_g)) (strip exd_g') /\ inj_on (ids exd_g) (fun n => n) /\
+  (forall n, In n (ids exd_g) -> (fun m => m / 2) (exd_s n) = (fun n => n) n) /\
+  (forall x, is_H exd_g x = false) /\ (forall x, is_H exd_g' x = false) /\
+  same_atom_stereo exd_g exd_g' exd_s exd_tabs exd_tabs' /\ same_ct_stereo exd_g exd_g' exd_s exd_tabs exd_tabs' exd_flip /\
+  smiles_text exd_g (fun n => n) (fun n => n) default_opts exd_tabs = Ok ("F/C=C\Cl"%string, [1; 2; 3; 4]) /\
+  smiles_text exd_g' (fun m => m / 2) (fun n => - n) default_opts exd_tabs' = Ok ("F/C=C\Cl"%string, [2; 4; 6; 8]).
+Proof. exact smiles_invariant_discrete_example. Qed.
+Print Assumptions C01_smiles_invariant_discrete_example.
+
+(* ---- __eq__ / __hash__ at molecule level ---- *)
+(* a described molecule = labelled graph + weights + set-order priorities + registries; canon_of o d = the text format(d, o).
+   Two descriptions of one structure (any renumbering, any insertion order, same stereo labels; injective weights that correspond)
+   compare equal in both directions and hash equal, for every hash function of strings *)
+Theorem C01_eq_hash_structure_only :
+  forall (o : opts) (str_hash : string -> Z) (d d' : described) (s : Z -> Z) (flipc : Z -> Z -> bool),
+  wf_mol (strip (d_mol d)) = true -> wf_mol (strip (d_mol d')) = true -> (forall x y, s x = s y -> x = y) -> s 0 = 0 ->
+  mol_perm (ren_mol s (strip (d_mol d))) (strip (d_mol d')) -> inj_on (ids (d_mol d)) (d_w d) ->
+  (forall n, In n (ids (d_mol d)) -> d_w d' (s n) = d_w d n) -> o_mapping o = false ->
+  (forall x, is_H (d_mol d) x = false) -> (forall x, is_H (d_mol d') x = false) ->
+  same_atom_stereo (d_mol d) (d_mol d') s (d_tabs d) (d_tabs d') -> same_ct_stereo (d_mol d) (d_mol d') s (d_tabs d) (d_tabs d') flipc ->
+  mol_eq (canon_of o) d' d = true /\ mol_eq (canon_of o) d d' = true /\ mol_hash (canon_of o) str_hash d' = mol_hash (canon_of o) str_hash d.
+Proof. exact eq_hash_structure_only. Qed.
+Print Assumptions C01_eq_hash_structure_only.
+
+Theorem C01_eq_hash_nostereo_structure_only :
+  forall (o : opts) (str_hash : string -> Z) (d d' : described) (s : Z -> Z),
+  wf_mol (d_mol d) = true -> wf_mol (d_mol d') = true -> (forall x y, s x = s y -> x = y) ->
+  mol_perm (ren_mol s (d_mol d)) (d_mol d') -> inj_on (ids (d_mol d)) (d_w d) ->
+  (forall n, In n (ids (d_mol d)) -> d_w d' (s n) = d_w d n) -> o_stereo o = false -> o_mapping o = false ->
+  mol_eq (canon_of o) d' d = true /\ mol_hash (canon_of o) str_hash d' = mol_hash (canon_of o) str_hash d.
+Proof. exact eq_hash_nostereo_structure_only. Qed.
+Print Assumptions C01_eq_hash_nostereo_structure_only.
